@@ -91,6 +91,10 @@ func (V *Verifier) runTop(fn *ssa.Function, key string, fs *FuncSpec, cands map[
 			T := sc.lookupType(g.Type)
 			srt := E.SortOf(T)
 			X.ghostTypes[g.Name] = srt
+			if X.ghostGoTypes == nil {
+				X.ghostGoTypes = map[string]types.Type{}
+			}
+			X.ghostGoTypes[g.Name] = T
 			X.heapSorts["GH|"+g.Name] = srt
 		}
 	}
@@ -100,6 +104,8 @@ func (V *Verifier) runTop(fn *ssa.Function, key string, fs *FuncSpec, cands map[
 	}
 	X.setHeap(st, "GM|maxalloc", SInt, ts.IntLit(0))
 	X.setHeap(st, "GM|maxmake", SInt, ts.IntLit(0))
+	X.setHeap(st, "GH|~panicval", SIface, E.IfaceNil())
+	X.setHeap(st, "GH|~panicked", SBool, ts.False())
 	X.Entry = st.Clone()
 	fr.EntryState = X.Entry
 	if fs != nil {
@@ -116,8 +122,7 @@ func (V *Verifier) runTop(fn *ssa.Function, key string, fs *FuncSpec, cands map[
 		for _, g := range fs.Ghosts {
 			sc := X.clauseCtx(fr, st, fr.ParamEntry, "ghost "+g.Name)
 			sc.Fr = nil
-			v := sc.eval(g.Init)
-			X.setHeap(st, "GH|"+g.Name, X.ghostTypes[g.Name], v.T)
+			X.setHeap(st, "GH|"+g.Name, X.ghostTypes[g.Name], sc.evalGhost(g.Init, X.ghostTypes[g.Name]))
 		}
 	}
 	X.Entry = st.Clone()
